@@ -230,9 +230,10 @@ theorem tree1Toks_no_rparen {os : List Opt} {ts : List (Tok × Nat)} (h : Tree1T
     · exact ih t h
 
 /-- **C05 (configurations one level deep, byte level).** Print a configuration `c` whose options are plain integer /
-boolean / string options (scalar or list) and untitled multi sections holding any number of flat instances - no
-callbacks, annotations or print filter - and parse the printed text with `cfg_parse_buf` into ANY context `c0` with the
-same declarations whose section options have no instances yet (as `cfg_init` leaves multi sections): the parse is
+boolean / string options (scalar or list), untitled multi sections holding any number of flat instances, and single
+sections holding their one flat instance - no callbacks, annotations or print filter - and parse the printed text with
+`cfg_parse_buf` into ANY context `c0` with the same declarations whose multi sections have no instances yet and whose
+single sections hold their instance (as `cfg_init` leaves them; what the instance's options hold does not matter): the parse is
 accepted, every plain option of the result holds exactly the value sequence of its counterpart in `c`, and every section
 option has exactly `c`'s instances, in order, each holding option by option exactly the printed values.  Bytes
 (indentation included), scanner, parse loop and token machine (frames pushed and popped) are all inside the statement. -/
@@ -285,7 +286,7 @@ example :
     rcases ho with rfl | rfl
     · exact Or.inl ⟨by decide, hi⟩
     · exact Or.inr ⟨rfl, rfl, rfl, by decide, [inst], rfl, by intro x hx; simp at hx; subst hx; exact ⟨rfl, by intro o ho; simp [inst, Cfg.opts] at ho; subst ho; exact hz⟩⟩
-  · refine All2.cons (Or.inl ⟨by decide, rfl, rfl, rfl, ⟨Or.inl rfl, rfl, rfl, rfl, rfl, ⟨by decide, by decide⟩, rfl⟩⟩) (All2.cons (Or.inr ⟨rfl, rfl, ?_, rfl, ?_⟩) All2.nil)
+  · refine All2.cons (Or.inl ⟨by decide, rfl, rfl, rfl, ⟨Or.inl rfl, rfl, rfl, rfl, rfl, ⟨by decide, by decide⟩, rfl⟩⟩) (All2.cons (Or.inr (Or.inl ⟨rfl, rfl, ?_, rfl, ?_⟩)) All2.nil)
     · exact ⟨⟨rfl, rfl⟩, rfl, rfl, rfl, rfl, ⟨by decide, by decide⟩⟩
     · intro x hx
       simp [Opt.vals] at hx
